@@ -457,5 +457,6 @@ pub fn run(opts: &Opts) -> Report {
             if let Some(g) = r.failures.iter().find(|g| g.kind == f.kind && g.signature == f.signature) { rep.failures[idx] = g.clone(); }
         }
     }
+    crate::fam::validation_crafted::run_all(&mut rep);
     rep
 }
